@@ -359,9 +359,15 @@ def gen_link(rng, dist):
             if k < 0.5:
                 tags = "".join(rng.choice("ifsTb") for _ in range(rng.randint(0, 3)))
                 m = rnd_msg(rng, b"/" + bytes(rng.choice(b"abc") for _ in range(rng.randint(1, 9))), tags)
-                if len(m) > maxmsg:       # (raw_write's precondition: the message fits MaxMsg)
-                    m = enc_msg(b"/m", "", [])
-                op = rng.choice("wA") + m.hex(); L = len(m)
+                if rng.random() < 0.15:   # a message around MaxMsg: just fits / just too long
+                    m = enc_msg(b"/big", "s", [bytes(rng.choice(b"abc") for _ in
+                                                     range(max(0, maxmsg + rng.choice([-16, -13, -12, -9, -8, 0, 4, 40]))))])
+                op = rng.choice("wA"); L = len(m)
+                if L > maxmsg:
+                    # "all messages (matching, non-matching, oversized ...)": raw_write drops a message
+                    # longer than MaxMsg (fix f8be5c8), writeArray cannot encode it; neither may allocate
+                    L = 0; seen.add("oversized-raw_write" if op == "w" else "oversized-writeArray")
+                op += m.hex()
             else:
                 s = rng.randint(0, 4)
                 op = "W%d" % s; L = len(SHAPES[s])
@@ -430,7 +436,7 @@ def graph():
         here = os.path.dirname(os.path.dirname(os.path.dirname(os.path.abspath(__file__))))
         try:
             _graph = json.load(open(os.path.join(here, "_work", "C03", "graph.json")))
-        except OSError:
+        except (OSError, ValueError):
             _graph = {}
     return _graph
 
@@ -449,9 +455,16 @@ def spec_check(case, impl):
         # every callback type the dynamic run drives must be a target of the indirect-call table
         G = graph()
         hs = set(G.get("dem", {}).get(h, "") for h in G.get("handlers", []))
+        hs.discard("")
+        if not hs:
+            # without the handler list the check below would pass vacuously
+            return ("table: _work/C03/graph.json is missing, unreadable or lists no std::function handler: "
+                    "'every driven callback is a target of the indirect-call table' cannot be checked")
+        if "cbs=" not in impl:
+            return "table: the harness did not list the callbacks it drove (%s)" % impl[:200]
         for t in impl.split("cbs=", 1)[1].split("|"):
             want = "std::_Function_handler<void (char const*, rtosc::RtData&), %s>::_M_invoke(" % t
-            if hs and not any(h.startswith(want) for h in hs):
+            if not any(h.startswith(want) for h in hs):
                 return "table: callback %s is driven dynamically but is not a target of the indirect-call table" % t
     return None
 
